@@ -138,6 +138,8 @@ def run_pipeline(cols, bonds, full=True):
     gc = canonicalize_molecule(g)
     rounds = len({d["partition"] for _, d in gc.nodes(data=True)})
     s = serialize_molecule(gc)
+    if serialize_molecule(gc) != s:
+        return s, "serializing the same canonical graph a second time gives a different string", rounds
     g2 = graph_from_tucan(s)
     if g2.number_of_nodes() != n or g2.number_of_edges() != len(bonds):
         return s, f"parse changed atom/bond counts: {g2.number_of_nodes()},{g2.number_of_edges()} vs {n},{len(bonds)}", rounds
